@@ -38,6 +38,8 @@ def save_scenario(cfg: dict) -> dict:
     if cfg['mode'] == 'overwrite':
         sc['cached'] = [0]
         sc['bust_cache'] = True
+    # a recursive delete issued during the save is file-by-file (both directory orders are covered)
+    sc['delete_order'] = 'reverse' if cfg['shape'] == 'big' else 'sorted'
     return sc
 
 
